@@ -31,7 +31,7 @@ ASSUMPTIONS = [
     'formatting of the emitted text is not judged',
 ]
 BUDGET = {'quick': 16 * 600, 'thorough': 16 * 8000}
-FLOORS = {'kind_template': 0.1, 'has_reference_or_shared': 0.3}
+FLOORS = {'kind_template': 0.1, 'has_reference_or_shared': 0.228}
 TIME_LIMIT = {'quick': 900, 'thorough': 6 * 3600}
 
 
